@@ -22,7 +22,8 @@ SPECS = [
     Spec(GROUP, "pn53x_chipset_error_bytes", F, "Chipset.chipset_error", [("cause", BYTES)], excs=_EX, drop=["strerr ="],
          note="instance for a byte string cause (the response payload); the message lookup is dropped"),
     Spec(GROUP, "pn53x_chipset_error_opt", F, "Chipset.chipset_error", [("cause", OPT(INT))], excs=_EX, drop=["strerr ="],
-         nonneg=["cause"], note="instance for `int | None` (`data[0] & 0x3f if data else None`); the message lookup is dropped"),
+         nonneg=["cause"], note="instance for `int | None` (`data[0] & 0x3f if data else None`; also covers `chipset_error(None)` of "
+              "`get_general_status` - a parameter of type None alone cannot be fed by the self-test); the message lookup is dropped"),
     Spec(GROUP, "pn53x_build", F, "Chipset.command", [("cmd_code", INT), ("cmd_data", BYTES)],
          path=[(0, "body")], stmts=(2, 5), result=["head", "data", "tail"],
          note="cut: inside `if cmd_data is not None:` the statements that build head, data and tail of the "
@@ -152,6 +153,7 @@ MUTATIONS = [
     ("pn53x_body", "payload keeps the checksum", "return frame[2:-2]", "return frame[2:-1]"),
     ("pn53x_accept", "TFI of a response", "not frame[0] == 0xD5", "not frame[0] == 0xD4"),
     ("pn53x_accept", "error code reported by the error frame", "self.chipset_error(0x7F)", "self.chipset_error(0x7E)"),
+    ("pn53x_chipset_error_opt", "errno for a missing response", "errno = 0xff", "errno = 0xfe"),
     ("pn53x_chipset_error_bytes", "status octet position", "errno = cause[0]", "errno = cause[1]"),
     ("pn53x_ack_sof_check", "start code test dropped for short frames", "if not frame.startswith(self.SOF):", "if len(frame) > 3 and not frame.startswith(self.SOF):"),
     ("pn53x_is_ack", "ACK compared by prefix", "while frame == self.ACK:", "while frame.startswith(self.ACK):"),
